@@ -2,6 +2,7 @@ import RbV.Basic.RsSem
 import RbV.Basic.RsSemInt
 import RbV.Basic.RsSemBits
 import RbV.Basic.RsSemGensparse
+import RbV.Basic.RsSemGenalign
 /-!
 Semantics of the part of the Rust subset added by `tools/rs2lean_genband.py` (dialect "band": the band construction and the
 glue of `alignment/pairwise/banded.rs`; docs/notes/GEN.md, "Dialect band").  Hand-written, core Lean, trusted like `RsSem.lean`.
@@ -10,7 +11,8 @@ glue of `alignment/pairwise/banded.rs`; docs/notes/GEN.md, "Dialect band").  Han
   is `cmp3 a b g l e` (the translator puts the arms into this order whatever their order in the text).
 * everything else the dialect emits is defined in `RsSem.lean` (`Rs.idx`, `Rs.setIdx`, checked `add`/`sub`/`mul`/`div`,
   `Rs.cast`, `Rs.assert`, `Rs.expect`), `RsSemInt.lean` (`Rs.iadd`), `RsSemBits.lean` (`Rs.resize`), `RsSemGensparse.lean`
-  (`Rs.satSub`, `Rs.castUnsigned`).
+  (`Rs.satSub`, `Rs.castUnsigned`), `RsSemGenalign.lean` (`Rs.imul`; `Rs.AlignmentOperation`, `Rs.AlignmentMode`: the trusted
+  reading of the two enums of the external crate bio-types, shared with dialect "align").
 -/
 namespace RbV.Rs
 
